@@ -477,6 +477,12 @@ func genTree(t *rapid.T) TreeCase {
 	if rapid.IntRange(0, 2).Draw(t, "spelled") == 0 {
 		c.Spelling.Cwd = rapid.SampledFrom(Cwds).Draw(t, "cwd")
 		c.Spelling.Src.Rel = c.Spelling.Cwd != "" && rapid.IntRange(0, 3).Draw(t, "srcRelative") > 0
+		if rapid.IntRange(0, 2).Draw(t, "srcDecorated") == 0 {
+			// the source directory written the way the other arguments are: "./src", "a/./src", "a//src", a ".." detour, "src/."
+			sp := spellGen.Draw(t, "srcSpell")
+			c.Spelling.Src.Decor, c.Spelling.Src.Trail = sp.Decor, sp.Trail
+			c.Spelling.SrcUnclean = true
+		}
 		c.Spelling.Zip = spellGen.Draw(t, "zipSpell")
 		c.Spelling.Zip.Trail = ""
 		c.Spelling.Dest = spellGen.Draw(t, "destSpell")
@@ -751,20 +757,32 @@ func TestC20TreeSpellings(t *testing.T) {
 		}
 	}
 	dests = append(dests, Spell{}) // 49
-	zips = zips[:11]               // 11: the last one (absolute, lead2) is met through the destination list
+	var srcDecor []Spell
+	for _, d := range Decors {
+		for _, tr := range Trails {
+			if d != "" || tr == "//" || tr == "/." {
+				srcDecor = append(srcDecor, Spell{Decor: d, Trail: tr})
+			}
+		}
+	}
+	zips = zips[:11] // 11: the last one (absolute, lead2) is met through the destination list
 	filters := []struct {
 		kind string
 		arg  Name
 	}{{"nil", ""}, {"suffix", ".txt"}, {"dir", "src"}, {"notdir", "src"}, {"suffix", "src/f.txt"}}
-	total := vstat.Pick(154, 14*49*11/7)
+	total := vstat.Pick(154, 14*49) // thorough: every source spelling meets every destination spelling
 	ran := 0
 	for n := 0; n < total; n++ {
 		if n%shards != shard {
 			continue
 		}
 		s, f := srcs[n%len(srcs)], filters[n%len(filters)]
-		c := TreeCase{Filter: f.kind, Arg: f.arg, Recursive: n%3 != 0, TrailingSlash: s.slash, DestExists: (n/len(srcs))%2 == 0,
-			Spelling: Spelling{Cwd: s.cwd, Src: Spell{Rel: s.rel}, Zip: zips[n%len(zips)], Dest: dests[(n+n/len(srcs))%len(dests)]},
+		srcSpell, unclean := Spell{Rel: s.rel}, false
+		if k := (n / 2) % (2 * len(srcDecor)); k < len(srcDecor) { // half of the cases decorate the source directory as well
+			srcSpell.Decor, srcSpell.Trail, unclean = srcDecor[k].Decor, srcDecor[k].Trail, true
+		}
+		c := TreeCase{Filter: f.kind, Arg: f.arg, Recursive: n%3 != 0, TrailingSlash: s.slash && !unclean, DestExists: (n/len(srcs))%2 == 0,
+			Spelling: Spelling{Cwd: s.cwd, Src: srcSpell, SrcUnclean: unclean, Zip: zips[n%len(zips)], Dest: dests[(n+n/len(srcs))%len(dests)]},
 			Dirs:     []Dir{{Parent: -1, Name: "a"}, {Parent: 0, Name: "src"}},
 			Files: []File{
 				{Dir: -1, Name: "plain.txt", Content: Content{Data: []byte("plain")}},
